@@ -275,17 +275,27 @@ def atomRow (o : ReadOpts) (s : AState) (vals : List (Option CifValue)) : AState
       | none => s
       | some m' => { s with models := s.models.set mi m' }
 
+/-- the value of one row in the column with the given tag: `positions[i].map(|x| &row[x])` with
+`positions[i] = header.iter().position(|t| t == tag)` -/
+def colLookup (header : List (List Char)) (row : List CifValue) (tag : List Char) : Option CifValue :=
+  (header.findIdx? (· == tag)).bind (row[·]?)
+
+/-- the 27 looked-up values of a row, in the order of `atomColumns` -/
+def rowVals (header : List (List Char)) (row : List CifValue) : List (Option CifValue) :=
+  atomColumns.map fun c => colLookup header row c.1.toList
+
+/-- one diagnostic per mandatory column that the header lacks -/
+def missingCols (header : List (List Char)) : List CDiag :=
+  (atomColumns.filter fun c => c.2 && !header.contains c.1.toList).map fun _ =>
+    (ErrorLevel.invalidating, "Missing column in coordinate atoms data loop")
+
 /-- `parse_atoms` -/
 def parseAtoms (o : ReadOpts) (models : List Model) (header : List (List Char)) (rows : List (List CifValue)) :
     List Model × List CDiag × Bool :=
-  let positions : List (Option Nat × Bool) := atomColumns.map fun (tag, reqd) =>
-    (header.findIdx? (· == tag.toList), reqd)
-  let missing := positions.filter fun p => p.1.isNone && p.2
-  if !missing.isEmpty then
-    (models, missing.map fun _ => (ErrorLevel.invalidating, "Missing column in coordinate atoms data loop"), true)
+  if !(missingCols header).isEmpty then (models, missingCols header, true)
   else
-    let s := rows.foldl (fun (s : AState) (row : List CifValue) =>
-      atomRow o s (positions.map fun p => p.1.bind fun i => row[i]?)) ({ models := models } : AState)
+    let s := rows.foldl (fun (s : AState) (row : List CifValue) => atomRow o s (rowVals header row))
+      ({ models := models } : AState)
     let errors := if s.dupIds.isEmpty then s.errors else s.errors ++ [(.looseWarning, "Duplicated atom IDs")]
     (s.models, errors, s.exact)
 
@@ -456,12 +466,36 @@ def readCifCore (o : ReadOpts) (b : DataBlock) : PdbFile × List PDiag :=
   let errors := s.errors.map cifDiag ++ (validate pdb).map fun d => PDiag.mk d.1 d.2 []
   ({ pdb := pdb, info := info, exact := s.exact && exR }, errors)
 
+/-- Is every number that stands where a text is expected one whose `format!("{n}")` the model reproduces
+(an integer below 2^53 with at most 15 digits, or a non-finite value)?  Otherwise the text the code obtains
+depends on the rounding noise of `parse_numeric` and on the shortest-round-trip printer, which are not
+modelled: such inputs are answered `UNSUPPORTED` by the driver and compared on totality only. -/
+def textPredictable (b : DataBlock) : Bool :=
+  let okV (v : Option CifValue) : Bool := match v with | some v => (getText v).2 | none => true
+  let textCols := ["atom_site.label_alt_id", "atom_site.label_asym_id", "atom_site.auth_asym_id",
+    "atom_site.label_comp_id", "atom_site.group_PDB", "atom_site.id", "atom_site.pdbx_PDB_ins_code",
+    "atom_site.label_atom_id", "atom_site.type_symbol"]
+  b.items.all fun it =>
+    match it with
+    | .frame _ _ => true
+    | .data (.loop header rows) =>
+      !header.contains "atom_site.group_PDB".toList ||
+        rows.all fun row => textCols.all fun t => okV (colLookup header row t.toList)
+    | .data (.single name v) =>
+      let nm := String.ofList name
+      if nm == "symmetry.space_group_name_H-M" || nm == "symmetry.space_group_name_Hall" ||
+          nm == "space_group.name_H-M_alt" || nm == "space_group.name_Hall" ||
+          (startsWithL name "struct_ncs_oper.".toList && endsWithL name "code".toList) then okV (some v) else true
+
+/-- the reader on a lexed data block -/
+def readCifBlock (o : ReadOpts) (b : DataBlock) : Outcome :=
+  let (f, errors) := readCifCore o b
+  if errors.any (fun e => e.level.fails o.level) then .err errors else .ok f errors
+
 /-- `open_mmcif_raw_with_options` on decoded text -/
 def readCif (o : ReadOpts) (text : List Char) : Outcome :=
   match lexCif text with
   | .error e => .err [⟨.breaking, e, []⟩]
-  | .ok b =>
-    let (f, errors) := readCifCore o b
-    if errors.any (fun e => e.level.fails o.level) then .err errors else .ok f errors
+  | .ok b => readCifBlock o b
 
 end PdbModel
